@@ -152,6 +152,7 @@ type auditSink struct {
 	lastHash [32]byte
 	buf      []byte
 	dead     bool
+	torn     int    // quiet mode: writes that were not whole records
 	hook     func() // if set: called once, outside the sink's own lock, when the next record arrives
 }
 
@@ -181,6 +182,17 @@ func (s *auditSink) Write(p []byte) (int, error) {
 	}
 	defer s.mu.Unlock()
 	if s.quiet {
+		// still READ what is handed over (so that the race detector sees a buffer that is being
+		// rewritten by another request) and note anything that is not one or more complete records
+		if len(p) == 0 || p[len(p)-1] != '\n' {
+			s.torn++
+		} else {
+			for _, line := range bytes.Split(p[:len(p)-1], []byte{'\n'}) {
+				if !json.Valid(line) {
+					s.torn++
+				}
+			}
+		}
 		return len(p), nil
 	}
 	s.noteSave()
